@@ -27,6 +27,9 @@ func init() {
 		ruleU1(c, "C08.G9")
 		ruleG10(c, "C08.G10")
 		ruleG11(c, "C08.G11")
+		// a handle goes stale when its object loses its last name: the unlink follows the removal of the name on
+		// every path (REMOVE, RMDIR, RENAME over an existing target)
+		ruleS2(c, "C08.G12")
 	}
 }
 
